@@ -34,6 +34,9 @@ func seqClasses(c SeqCase, st SeqStats) []string {
 	if c.Cfg.Immutable {
 		cl = append(cl, "immutable")
 	}
+	if c.Cfg.StartPrim > 0 || c.Cfg.StartIdx > 0 {
+		cl = append(cl, "positions-beyond-32-bits")
+	}
 	if st.SharedPrefixPair {
 		cl = append(cl, "shared-prefix-pair")
 	}
